@@ -52,8 +52,16 @@ enum Pat {
     ElementEndHookOnTimer,
     /// ... in event_end of the start stage (tasks spawned by that stage)
     ElementEndHookOnStart,
+    /// the handler releases N tasks and, in the same call, requests a shutdown
+    NotifyThenShutdown,
+    /// ... requests a shutdown with a restart one second later
+    NotifyThenRestart,
+    /// N tasks sleep to 1 s; a message arriving at exactly 1 s makes the handler request a shutdown
+    SleepersThenShutdown,
+    /// the start stage spawns N tasks and requests a shutdown in the same call
+    StartThenShutdown,
 }
-const PATS: [Pat; 17] = [
+const PATS: [Pat; 21] = [
     Pat::Sleepers,
     Pat::Chain,
     Pat::NotifyAll,
@@ -71,6 +79,10 @@ const PATS: [Pat; 17] = [
     Pat::ElementEndHook,
     Pat::ElementEndHookOnTimer,
     Pat::ElementEndHookOnStart,
+    Pat::NotifyThenShutdown,
+    Pat::NotifyThenRestart,
+    Pat::SleepersThenShutdown,
+    Pat::StartThenShutdown,
 ];
 
 #[derive(Clone, Copy, Debug, PartialEq, Eq)]
@@ -145,7 +157,41 @@ impl Module for Mo {
         let n = self.n;
         let k = self.kind;
         self.incarnation += 1;
+        if self.incarnation > 1 && self.pat == Pat::NotifyThenRestart {
+            return;
+        }
         match self.pat {
+            Pat::NotifyThenShutdown | Pat::NotifyThenRestart => {
+                for i in 0..n {
+                    let l = self.log.clone();
+                    let nf = self.notify.clone();
+                    spawn_kind(k, async move {
+                        nf.notified().await;
+                        l.lock().unwrap().push((i as u32, now()));
+                    });
+                }
+                let kind = if self.pat == Pat::NotifyThenShutdown { 10 } else { 11 };
+                schedule_in(Message::default().kind(kind), Duration::from_secs(1));
+            }
+            Pat::SleepersThenShutdown => {
+                for i in 0..n {
+                    let l = self.log.clone();
+                    spawn_kind(k, async move {
+                        sleep(Duration::from_secs(1)).await;
+                        l.lock().unwrap().push((i as u32, now()));
+                    });
+                }
+                schedule_in(Message::default().kind(12), Duration::from_secs(1));
+            }
+            Pat::StartThenShutdown => {
+                for i in 0..n {
+                    let l = self.log.clone();
+                    spawn_kind(k, async move {
+                        l.lock().unwrap().push((i as u32, now()));
+                    });
+                }
+                current().shutdown();
+            }
             Pat::Sleepers => {
                 for i in 0..n {
                     let l = self.log.clone();
@@ -324,6 +370,15 @@ impl Module for Mo {
                 let _ = self.bc.as_ref().unwrap().send(1);
             }
             7 => current().shutdow_and_restart_in(Duration::from_secs(1)),
+            10 => {
+                self.notify.notify_waiters();
+                current().shutdown();
+            }
+            11 => {
+                self.notify.notify_waiters();
+                current().shutdow_and_restart_in(Duration::from_secs(1));
+            }
+            12 => current().shutdown(),
             _ => {}
         }
     }
@@ -360,7 +415,7 @@ struct Case {
 
 fn expected_time(c: &Case) -> u64 {
     match c.pat {
-        Pat::StartStage | Pat::ElementEndHookOnStart => 0,
+        Pat::StartStage | Pat::ElementEndHookOnStart | Pat::StartThenShutdown => 0,
         Pat::Restart => 2000,
         _ => 1000,
     }
@@ -490,7 +545,7 @@ impl Property for C06 {
         ]
     }
     fn required_features(&self, _tier: Tier) -> Vec<&'static str> {
-        vec!["n_at_least_61_runtime_tasks", "wake_chain", "restart_trigger", "start_stage_trigger", "message_trigger", "timer_trigger", "local_tasks", "processing_element_trigger"]
+        vec!["n_at_least_61_runtime_tasks", "wake_chain", "restart_trigger", "start_stage_trigger", "message_trigger", "timer_trigger", "local_tasks", "processing_element_trigger", "shutdown_requested_in_the_event"]
     }
     fn finding_classes(&self) -> Vec<&'static str> {
         vec!["deferred_wake_in_event", "spawn_local_gt60_polls"]
@@ -521,6 +576,7 @@ impl Property for C06 {
                     match pat {
                         Pat::Chain | Pat::TimerThenNotify => ctx.hit("wake_chain"),
                         Pat::Restart => ctx.hit("restart_trigger"),
+                        Pat::NotifyThenShutdown | Pat::NotifyThenRestart | Pat::SleepersThenShutdown | Pat::StartThenShutdown => ctx.hit("shutdown_requested_in_the_event"),
                         Pat::StartStage => ctx.hit("start_stage_trigger"),
                         Pat::Sleepers => ctx.hit("timer_trigger"),
                         Pat::NotifyAll => ctx.hit("message_trigger"),
